@@ -10,6 +10,7 @@ structure DSt where
   pool : List (String × List (String × String)) := []
   st : Option State := none
   ncls : Nat := 0
+  hidden : List Nat := []
   trace : List MEv := []
 
 def kv (toks : List String) (k : String) : String :=
@@ -34,7 +35,8 @@ def parseNode (toks : List String) : Node :=
     shape := match kv toks "shape" with | "own" => .own | "swarm" => .swarm | _ => .global,
     scope := splitList (kv toks "scope"), poolFilter := kv toks "filter",
     rerunStatus := if kv toks "rerun" == "-" || kv toks "rerun" == "" then none else some (splitList (kv toks "rerun")),
-    stopStatus := splitList (kv toks "stop"), rank := (kv toks "rank").toNat!, objs := splitList (kv toks "objs") }
+    stopStatus := splitList (kv toks "stop"), rank := (kv toks "rank").toNat!, objs := splitList (kv toks "objs"),
+    setless := kv toks "setless" }
 
 def showEvent : Event → String
   | .start w c uid locs unk =>
@@ -63,11 +65,12 @@ def step (d : DSt) (line : String) : DSt × String :=
                   (fun n => { n with cleanup := n.cleanup ++ [(c, vl)] }) }, "ok")
     | _, _ => (d, "bad-op")
   | ["root", r] => ({ d with root := r.toNat! }, "ok")
+  | ["hidden", i] => ({ d with hidden := d.hidden ++ [i.toNat!] }, "ok")
   | ["pool", loc, sts] => ({ d with pool := d.pool ++ [(loc, pairs sts)] }, "ok")
   | ["pool", loc] => ({ d with pool := d.pool ++ [(loc, [])] }, "ok")
   | ["init"] =>
     let g : Graph := { workers := d.workers, nodes := d.nodes, root := d.root }
-    ({ d with st := some (initState g d.ncls d.pool) }, "ok")
+    ({ d with st := some (initState g d.ncls d.pool d.hidden) }, "ok")
   | "resume" :: w :: rest =>
     match d.st, w.toNat? with
     | some s, some w =>
